@@ -2,7 +2,7 @@
 from trkgen import *
 
 ID = "C12"
-THEOREM_MODULES = ["SimVerif.Props.C12", "SimVerif.Tie.VMetric", "SimVerif.Tie.Voting"]
+THEOREM_MODULES = ["SimVerif.Props.C12", "SimVerif.Tie.VMetric", "SimVerif.Tie.Voting", "SimVerif.Tie.VisVoting", "SimVerif.Props.C12s"]
 THEOREM_MODULE = "SimVerif.Props.C12"
 NONTRIVIAL_FLAGS = {"appearance-votes", "track-below-minimal-length", "feature-not-usable", "all-features-over-threshold", "visual-attachment", "appearance-contest-lost", "appearance-and-positional", "competition", "feature-not-collectable", "gallery-full"}
 RULE = ("VisualSORT and BatchVisualSORT histories with crossing objects, look-alike objects (embeddings within the visual threshold of each other), missing and low-quality features, occlusions and clutter, over option combinations "
@@ -35,7 +35,7 @@ def shape_key(case, results):
             return "trk-" + r.req.split()[1] + ("-invalid-choice" if "invalid-choice" in r.flags else "")
     return "none"
 
-SOURCE_TIE = "Source-level tie by proof (Tie/VMetric, Tie/Voting): the decision kernels of VisualMetric and BestFitVoting::winners as regenerated from the source equal the model's."
+SOURCE_TIE = "Source-level tie by proof (Tie/VMetric, Tie/Voting, Tie/VisVoting, Props/C12s): the decision kernels of VisualMetric, BestFitVoting::winners and the cascade VisualVoting::winners (appearance first, positional stage on exactly the remaining distances) as regenerated from the source equal the model's / the cascade specification."
 LEVEL_TEXT = LEVEL_TEXT + " " + SOURCE_TIE
 TRUSTED_BASE = TRUSTED_BASE + ["translator/kernels.py + rustexpr.py (reader of the Rust subset, per-function tables) for the functions named in SOURCE_TIE; generated definitions are proof obligations (Tie modules) on every run"]
 TECHNIQUE = TECHNIQUE + "; model regenerated from the source by a translator for the functions of SOURCE_TIE, tied by proof"
